@@ -114,6 +114,24 @@ def parse_struct(eng, st, model, T, endian, fv: FileV, node, label=None):
     return ObjV(path)
 
 
+def parse_bytes(eng, st, model, T, endian, b: BytesV, node, label=None):
+    """`T(buf)`: symbolic parse of a bytes value (EOFError when it is shorter than the structure)"""
+    n = len(T)
+    eng.may_raise("EOFError", st, b.n >= n, node)
+    path = f"{label or T.__name__}!{next(_pc)}"
+    for name, off, width, kind, signed, blo, bn in layout(T):
+        key = f"{path}.{name}"
+        if kind == "int":
+            e, facts = field_expr(b.at, z3.IntVal(off), endian, width, signed, blo, bn)
+            for f_ in facts:
+                st.hyps.append(f_)
+            model.fields[key] = IntV(e)
+        elif kind == "bytes":
+            model.fields[key] = BytesV(z3.IntVal(width), lambda i, p=off, at=b.at: at(p + i))
+    model.truthy[path] = z3.BoolVal(True)
+    return ObjV(path)
+
+
 import itertools
 
 _pc = itertools.count()
